@@ -148,7 +148,7 @@ func (te *tableEngine) openGame(oldTable *Table) (*Table, error) {
 
 func (te *tableEngine) startGame() error {
 	rule := te.table.Meta.Rule
-	blind := te.table.State.BlindState
+	blind := *te.table.State.BlindState
 
 	// create game options
 	opts := pokerface.NewStardardGameOptions()
